@@ -454,13 +454,13 @@ def canon(x):
 def _related(targets):
     """Edits collide when all component-targeted edits hit the same component
     (frame-level edits collide with everything)."""
-    comp = {t for t in targets if t != "frame"}
+    comp = {t for t in targets if t not in ("frame", "self")}   # "self": the only component of a series / column / index base
     comp = {("index" if (t == "index" or t.startswith("level:")) else t) for t in comp}
     return len(comp) <= 1
 
 
 def space(base_name, ks, kd, parsers=False, rich=True, related=True, schema_filter=None, data_filter=None,
-          shard=None):
+          shard=None, related_from=3, exact=None):
     """All (schema, table, edits) with <= ks schema edits and <= kd data edits of the base.
     Deduplicated by canonical JSON of (schema, table)."""
     spec0, table0 = BASES[base_name]
@@ -474,6 +474,8 @@ def space(base_name, ks, kd, parsers=False, rich=True, related=True, schema_filt
     out = []
     sidx = -1
     for i in range(ks + 1):
+        if exact is not None and i != exact[0]:
+            continue
         for scomb0 in itertools.combinations(sed, i):
             sidx += 1
             if shard is not None and sidx % shard[1] != shard[0]:
@@ -484,11 +486,11 @@ def space(base_name, ks, kd, parsers=False, rich=True, related=True, schema_filt
                 # check order matters when one of them raises / is a user check: also the reverse order
                 variants.append(tuple(reversed(scomb0)))
             for scomb in variants:
-                _space_one(scomb, spec0, table0, ded, kd, i, related, seen, out, base_name)
+                _space_one(scomb, spec0, table0, ded, kd, i, related, seen, out, base_name, related_from, exact)
     return out
 
 
-def _space_one(scomb, spec0, table0, ded, kd, i, related, seen, out, base_name):
+def _space_one(scomb, spec0, table0, ded, kd, i, related, seen, out, base_name, related_from=3, exact=None):
     if True:
         if True:
             st = [schema_edit_target(e) for e in scomb]
@@ -503,8 +505,10 @@ def _space_one(scomb, spec0, table0, ded, kd, i, related, seen, out, base_name):
             if not ok:
                 return
             for j in range(kd + 1):
+                if exact is not None and j != exact[1]:
+                    continue
                 for dcomb in itertools.combinations(ded, j):
-                    if related and (i + j) >= 3:
+                    if related and (i + j) >= related_from:
                         if not _related(st + [data_edit_target(e) for e in dcomb]):
                             continue
                     table = table0
